@@ -26,6 +26,8 @@ try:
         print('cover', nm, cap, meta.get('leaves'), meta.get('events'), os.path.getsize(p), meta.get('wall_s'), flush=True)
     with ThreadPoolExecutor(max_workers=int(os.environ.get('VERIF_REGEN_PAR', '7'))) as ex:    # one single-worker TLC each (the prefix tree needs a deterministic search order)
         list(ex.map(one_cover, sorted(set(chk.COVER['quick'] + chk.COVER[tier] + [n for p in ('C08', 'C16', 'C09', 'C12', 'C14') for d, r, x in chk.SPECIFIC[p]['quick'] + chk.SPECIFIC[p][tier] if d in ('cover', 'coverpair') for n in x]))))
+    import misc
+    print('cover timerimpl', misc.timer_cover(wd, 1), flush=True)
 finally:
     shutil.rmtree(wd, ignore_errors=True)
 # drop artefacts of older specification versions
